@@ -91,6 +91,11 @@ def layout(A: np.ndarray, name: str) -> np.ndarray:
     raise ValueError(name)
 
 
+def vary(A: np.ndarray, idx: int) -> np.ndarray:
+    """Same values in a memory layout chosen by idx (most cases stay C-contiguous; every 7-cycle visits the other four layouts)."""
+    return layout(A, ["C", "C", "F", "C", "strided", "transposed_view", "readonly"][idx % 7])
+
+
 def shapes3(maxdim: int):
     return list(itertools.product(range(1, maxdim + 1), repeat=3))
 
